@@ -265,6 +265,59 @@ func c07Handwritten(dir, t, u string) []string {
 var c07Digits = regexp.MustCompile(`[0-9]+`)
 var c07Hex = regexp.MustCompile(`0x[0-9a-f]+`)
 
+// c07MalformedFiles writes CSV and JSON files of 102 rows (columns a,b,c) in which one row (index 0, 50 or 101) is
+// irregular in one of several ways; returns their paths.
+func c07MalformedFiles(dir string) []string {
+	csvBad := map[string]string{
+		"short1": "7", "short2": "7,x", "long": "7,x,1.5,extra", "empty": "", "onlycommas": ",,", "barequote": "7,x\"y,1.5",
+		"openquote": "7,\"x,1.5", "multiline": "7,\"x\ny\",1.5", "typeflip": "x,7,y", "nul": "7,\x00,1.5", "badutf8": "7,\xff\xfe,1.5", "crlf": "7,x,1.5\r",
+	}
+	jsonBad := map[string]string{
+		"missingfield": `{"a":7}`, "extrafield": `{"a":7,"b":"x","c":1.5,"d":[1]}`, "empty": ``, "emptyobj": `{}`, "array": `[7,"x",1.5]`, "scalar": `7`,
+		"truncated": `{"a":7,"b":"x"`, "typeflip": `{"a":"x","b":7,"c":"y"}`, "nulls": `{"a":null,"b":null,"c":null}`, "nested": `{"a":{"z":[{"y":1}]},"b":["x"],"c":{}}`,
+		"dupkey": `{"a":7,"a":"x","b":"x","c":1.5}`, "badutf8": "{\"a\":7,\"b\":\"\xff\xfe\",\"c\":1.5}", "bignum": `{"a":1e999,"b":"x","c":-1e999}`, "trailing": `{"a":7,"b":"x","c":1.5} {"a":8}`,
+	}
+	var out []string
+	names := func(m map[string]string) []string {
+		var ks []string
+		for k := range m {
+			ks = append(ks, k)
+		}
+		sort.Strings(ks)
+		return ks
+	}
+	for _, pos := range []int{0, 50, 101} {
+		for _, k := range names(csvBad) {
+			var b strings.Builder
+			b.WriteString("a,b,c\n")
+			for i := 0; i < 102; i++ {
+				if i == pos {
+					b.WriteString(csvBad[k] + "\n")
+				} else {
+					fmt.Fprintf(&b, "%d,s%d,%d.5\n", i, i%3, i)
+				}
+			}
+			p := filepath.Join(dir, fmt.Sprintf("mal_%s_%d.csv", k, pos))
+			os.WriteFile(p, []byte(b.String()), 0o644)
+			out = append(out, p)
+		}
+		for _, k := range names(jsonBad) {
+			var b strings.Builder
+			for i := 0; i < 102; i++ {
+				if i == pos {
+					b.WriteString(jsonBad[k] + "\n")
+				} else {
+					fmt.Fprintf(&b, "{\"a\":%d,\"b\":\"s%d\",\"c\":%d.5}\n", i, i%3, i)
+				}
+			}
+			p := filepath.Join(dir, fmt.Sprintf("mal_%s_%d.json", k, pos))
+			os.WriteFile(p, []byte(b.String()), 0o644)
+			out = append(out, p)
+		}
+	}
+	return out
+}
+
 func c07PanicClass(msg string) string {
 	msg = c07Hex.ReplaceAllString(msg, "0x?")
 	msg = c07Digits.ReplaceAllString(msg, "N")
@@ -333,8 +386,16 @@ func init() {
 				cases = append(cases, cs{"output-mode-x-value-kind", q, m})
 			}
 		}
+		// (e) malformed input rows: 102-row files (the schema preview reads 100) with one irregular row at the start, inside
+		// the preview, or beyond it, x queries reading all / the first / the last / no column
+		for _, mf := range c07MalformedFiles(dir) {
+			for _, q := range []string{"SELECT * FROM %s x", "SELECT x.a FROM %s x", "SELECT x.c FROM %s x", "SELECT COUNT(*) AS n FROM %s x",
+				"SELECT x.b, COUNT(*) AS n FROM %s x GROUP BY x.b", "SELECT * FROM %s x WHERE x.c IS NOT NULL ORDER BY x.c LIMIT 3"} {
+				cases = append(cases, cs{"malformed-input-row", fmt.Sprintf(q, mf), "json"})
+			}
+		}
 		r.Bound = map[string]interface{}{"seeds": len(seeds), "token_alphabet": len(c07Tokens), "cases": len(cases)}
-		r.Rule = "(a) the complete one-token edit neighbourhood (delete / replace / insert over a 45-token alphabet) of 8 (16) seed queries covering every grammar production used elsewhere (thorough: a two-edit neighbourhood too); (b) every function descriptor x all tuples of edge-value literals of its argument types rendered as SQL; (c) ~150 handwritten edge queries (TVF arguments, aggregates, join/WHERE oddities, LIMIT values, indexes, casts, files whose later rows disagree with the previewed schema, malformed statements); (d) every output mode x every value kind; each run through the real root command in-process; outcome must be output or a reported error, never a Go panic (main goroutine: recovered and recorded; other goroutine: worker crash); violations are confirmed on the real binary; non-trivial = case that gets past parsing and typechecking"
+		r.Rule = "(a) the complete one-token edit neighbourhood (delete / replace / insert over a 45-token alphabet) of 8 (16) seed queries covering every grammar production used elsewhere (thorough: a two-edit neighbourhood too); (b) every function descriptor x all tuples of edge-value literals of its argument types rendered as SQL; (c) ~150 handwritten edge queries (TVF arguments, aggregates, join/WHERE oddities, LIMIT values, indexes, casts, files whose later rows disagree with the previewed schema, malformed statements); (d) every output mode x every value kind; (e) 102-row CSV and JSON files with one irregular row (12 CSV and 14 JSON kinds: short/long/empty rows, stray quotes, multi-line cells, NUL, invalid UTF-8, type flips, truncated or non-object JSON, duplicate keys, huge numbers) at row 0, 50 or 101 x 6 queries reading all/first/last/no columns; each run through the real root command in-process; outcome must be output or a reported error, never a Go panic (main goroutine: recovered and recorded; other goroutine: worker crash); violations are confirmed on the real binary; non-trivial = case that gets past parsing and typechecking"
 		r.Assume("huge repeat counts / ranges are excluded (memory, not panic)", "well-formed poll() queries are excluded: poll is an endless stream, not terminating is its specified behaviour", "a violation is identified by the top octosql stack frame of the panic and its message with numbers masked")
 		enum.Parallel(len(cases), func(i int) {
 			if r.TimeUp() {
